@@ -1,0 +1,183 @@
+//go:build verif
+
+package jsonrpc2
+
+// Verification hooks (build tag `verif`): state tracing of Connection at its linearization
+// points. Nothing here runs unless a test installs VerifHook.Emit / VerifHook.Gate.
+
+import (
+	"bytes"
+	"runtime"
+	"sort"
+	"strconv"
+	"strings"
+	"sync"
+	"sync/atomic"
+)
+
+// VerifSnapshot is the projection of inFlightState (plus the done channel) taken at the end of
+// updateInFlight, while stateMu is still held.
+type VerifSnapshot struct {
+	ConnClosing    bool     `json:"cc"`
+	Reading        bool     `json:"rd"`
+	ReadErr        bool     `json:"re"`
+	WriteErr       bool     `json:"we"`
+	CloserOpen     bool     `json:"co"`
+	Done           bool     `json:"dn"`
+	Outgoing       []string `json:"out"`
+	OutNotif       int      `json:"on"`
+	Incoming       int      `json:"inc"`
+	IncomingByID   []string `json:"by"`
+	HandlerQueue   []string `json:"hq"`
+	HandlerRunning bool     `json:"hr"`
+}
+
+// VerifRetired describes one AsyncCall.retire.
+type VerifRetired struct {
+	CallID string `json:"call"` // id of the AsyncCall
+	RespID string `json:"resp"` // id carried by the response it was retired with
+	IsErr  bool   `json:"err"`
+	Result string `json:"result,omitempty"`
+}
+
+// VerifEvent is one trace record.
+type VerifEvent struct {
+	Seq     int64          `json:"seq"`
+	Goid    int64          `json:"g"`
+	Kind    string         `json:"ev"`    // "upd" (one updateInFlight) | "retire" (one AsyncCall.retire)
+	InSec   bool           `json:"insec"` // retire: called inside an updateInFlight critical section
+	Site    string         `json:"site"`  // function that called updateInFlight
+	State   *VerifSnapshot `json:"st,omitempty"`
+	Retired []VerifRetired `json:"retired"`
+}
+
+// VerifHook is installed by the conformance harness.
+var VerifHook struct {
+	// Gate, if set, is called at the entry of updateInFlight, before stateMu is taken; it may block.
+	Gate func(c *Connection, site string)
+	// Emit, if set, receives every event; upd events are delivered while stateMu is held.
+	Emit func(c *Connection, e VerifEvent)
+}
+
+var (
+	verifSeq      int64
+	verifSections sync.Map // goroutine id -> *verifSection
+)
+
+type verifSection struct {
+	goid    int64
+	retired []VerifRetired
+}
+
+func verifGoid() int64 {
+	var buf [64]byte
+	b := buf[:runtime.Stack(buf[:], false)]
+	b = bytes.TrimPrefix(b, []byte("goroutine "))
+	if i := bytes.IndexByte(b, ' '); i > 0 {
+		n, _ := strconv.ParseInt(string(b[:i]), 10, 64)
+		return n
+	}
+	return 0
+}
+
+func verifSite(skip int) string {
+	pc, _, _, ok := runtime.Caller(skip)
+	if !ok {
+		return "?"
+	}
+	name := runtime.FuncForPC(pc).Name()
+	if i := strings.LastIndex(name, "jsonrpc2."); i >= 0 {
+		name = name[i+len("jsonrpc2."):]
+	}
+	name = strings.TrimPrefix(name, "(*Connection).")
+	return name
+}
+
+func verifIDString(id ID) string {
+	switch v := id.value.(type) {
+	case nil:
+		return ""
+	case string:
+		return "s:" + v
+	case int64:
+		return "i:" + strconv.FormatInt(v, 10)
+	}
+	return "?"
+}
+
+func verifGate(c *Connection) {
+	if g := VerifHook.Gate; g != nil {
+		g(c, verifSite(3))
+	}
+}
+
+// verifEnter runs under stateMu before f(s).
+func verifEnter(c *Connection) *verifSection {
+	if VerifHook.Emit == nil {
+		return nil
+	}
+	sec := &verifSection{goid: verifGoid()}
+	verifSections.Store(sec.goid, sec)
+	return sec
+}
+
+// verifUpdated runs (deferred) at the very end of updateInFlight, still under stateMu.
+func verifUpdated(c *Connection, sec *verifSection) {
+	if sec == nil {
+		return
+	}
+	verifSections.Delete(sec.goid)
+	emit := VerifHook.Emit
+	if emit == nil {
+		return
+	}
+	s := &c.state
+	st := &VerifSnapshot{
+		ConnClosing: s.connClosing, Reading: s.reading, ReadErr: s.readErr != nil, WriteErr: s.writeErr != nil,
+		CloserOpen: s.closer != nil, OutNotif: s.outgoingNotifications, Incoming: s.incoming,
+		HandlerRunning: s.handlerRunning,
+		Outgoing:       []string{}, IncomingByID: []string{}, HandlerQueue: []string{},
+	}
+	select {
+	case <-c.done:
+		st.Done = true
+	default:
+	}
+	for id := range s.outgoingCalls {
+		st.Outgoing = append(st.Outgoing, verifIDString(id))
+	}
+	sort.Strings(st.Outgoing)
+	for id := range s.incomingByID {
+		st.IncomingByID = append(st.IncomingByID, verifIDString(id))
+	}
+	sort.Strings(st.IncomingByID)
+	for _, r := range s.handlerQueue {
+		st.HandlerQueue = append(st.HandlerQueue, verifIDString(r.ID))
+	}
+	retired := sec.retired
+	if retired == nil {
+		retired = []VerifRetired{}
+	}
+	emit(c, VerifEvent{Seq: atomic.AddInt64(&verifSeq, 1), Goid: sec.goid, Kind: "upd", Site: verifSite(3),
+		State: st, Retired: retired})
+}
+
+func verifRetire(ac *AsyncCall, response *Response) {
+	emit := VerifHook.Emit
+	if emit == nil {
+		return
+	}
+	r := VerifRetired{CallID: verifIDString(ac.id), RespID: verifIDString(response.ID), IsErr: response.Error != nil,
+		Result: string(response.Result)}
+	gid := verifGoid()
+	insec := false
+	if v, ok := verifSections.Load(gid); ok {
+		// inside updateInFlight (stateMu held): also reported with that section's "upd" event
+		sec := v.(*verifSection)
+		sec.retired = append(sec.retired, r)
+		insec = true
+	}
+	// The event is emitted here, before close(ac.ready) makes the retirement visible to Await.
+	emit(nil, VerifEvent{Seq: atomic.AddInt64(&verifSeq, 1), Goid: gid, Kind: "retire", InSec: insec,
+		Site: verifSite(3), Retired: []VerifRetired{r}})
+}
